@@ -635,6 +635,12 @@ pub mod fam {
 
     /// One loop of the family. `middle` is placed between two prints of `loop.*` (nested loop).
     fn build_loop(cfg: LoopCfg, level: usize, iter: Expr, middle: Option<Vec<Stmt>>) -> Vec<Stmt> {
+        build_loop_captured(cfg, level, iter, middle, None)
+    }
+
+    /// `capture`: the prints of `loop.*` (and the nested loop between them) sit inside a set block /
+    /// filter section that is itself inside the loop body; the jumps stay outside it.
+    fn build_loop_captured(cfg: LoopCfg, level: usize, iter: Expr, middle: Option<Vec<Stmt>>, capture: Option<Wrap>) -> Vec<Stmt> {
         let var = format!("x{level}");
         let key = format!("k{level}");
         let keyo = if cfg.kv { Some(key.as_str()) } else { None };
@@ -646,10 +652,14 @@ pub mod fam {
         if let Some((is_break, at, true)) = cfg.jump {
             body.push(jump(is_break, at));
         }
-        body.extend(loop_print(&format!("p{level}"), keyo, &var));
+        let mut prints = loop_print(&format!("p{level}"), keyo, &var);
         if let Some(m) = middle {
-            body.extend(m);
-            body.extend(loop_print(&format!("r{level}"), keyo, &var));
+            prints.extend(m);
+            prints.extend(loop_print(&format!("r{level}"), keyo, &var));
+        }
+        match capture {
+            Some(w) => body.extend(wrap(w, level, prints)),
+            None => body.extend(prints),
         }
         if let Some((is_break, at, false)) = cfg.jump {
             body.push(jump(is_break, at));
@@ -687,10 +697,14 @@ pub mod fam {
         }
     }
 
-    /// item < #cfgs: single loop; then (outer cfg, inner cfg) pairs.
+    /// The captures a loop body is put into (family F2, items past the nested pairs).
+    pub const F2_CAPTURES: [Wrap; 2] = [Wrap::FilterUpper, Wrap::Set0];
+
+    /// item < #cfgs: single loop; then (outer cfg, inner cfg) pairs; then (cfg, capture, with an
+    /// inner loop inside the capture?) - `loop.*` read inside a capture inside the loop body.
     pub fn f2_items(_thorough: bool) -> u64 {
         let n = loop_cfgs().len() as u64;
-        n + n * n
+        n + n * n + n * F2_CAPTURES.len() as u64 * 2
     }
 
     pub fn f2_decode(item: u64, _thorough: bool, emit: &mut Emit<'_>) {
@@ -706,6 +720,22 @@ pub mod fam {
                 .collect();
             let tag = format!("{}{}", jump_tag(cfg), if cfg.kv { "/kv" } else { "" });
             emit(Group { program: &program, bindings: &bindings, tag: &tag, detail: &format!("{cfg:?}") });
+            return;
+        }
+        if item >= n + n * n {
+            let r = item - n - n * n;
+            let cfg = cfgs[(r % n) as usize];
+            let w = F2_CAPTURES[((r / n) % F2_CAPTURES.len() as u64) as usize];
+            let with_inner = r / n / F2_CAPTURES.len() as u64 == 1;
+            let plain = LoopCfg { kv: false, with_else: false, jump: None };
+            let middle = with_inner.then(|| build_loop(plain, 2, Expr::var("x1"), None));
+            let program = Program::single(build_loop_captured(cfg, 1, Expr::var("it"), middle, Some(w))).with_variants();
+            let bindings: Vec<Bindings> = its
+                .iter()
+                .map(|(class, v)| Bindings::ctx_only(vec![b("it", v.clone())], class))
+                .collect();
+            let tag = format!("in-capture/{}{}{}", jump_tag(cfg), if cfg.kv { "/kv" } else { "" }, if with_inner { "/inner-loop" } else { "" });
+            emit(Group { program: &program, bindings: &bindings, tag: &tag, detail: &format!("{cfg:?} prints inside {}", w.name()) });
             return;
         }
         let r = item - n;
